@@ -101,6 +101,35 @@ def c01_conversions(R):
     return fails
 
 
+def c01_after_mutation(R, n=2):
+    """query, change the automaton through its public mutators, query again: answers must follow the current structure"""
+    fails = []
+    aut = S.build(R); cur = R
+    W = words(R, n)
+    def requery(tag_):
+        for w in W:
+            if aut.accepts(list(w)) != S.accepts(cur, w): fails.append(fail('C01.accepts.after-mutation', f'{tag_}: word {w}: got {aut.accepts(list(w))}')); return False
+        Rd = S.extract(aut.to_deterministic())
+        if not S.equivalent(cur, Rd)[0]: fails.append(fail('C01.to_deterministic.after-mutation', tag_)); return False
+        return True
+    try:
+        if not requery('initial'): return fails
+        sts = sorted(R[0], key=repr)
+        for p in sts:
+            for q in sts:
+                if (p, None, q) in cur[4]: continue
+                aut.add_transition(p, 'epsilon', q); cur = S.mk(cur[0], cur[1], cur[2], cur[3], set(cur[4]) | {(p, None, q)})
+                if not requery(f'after add_transition({p!r}, epsilon, {q!r})'): return fails
+                aut.remove_transition(p, 'epsilon', q); cur = S.mk(cur[0], cur[1], cur[2], cur[3], set(cur[4]) - {(p, None, q)})
+                if not requery(f'after remove_transition({p!r}, epsilon, {q!r})'): return fails
+        for (p, a, q) in sorted(R[4], key=repr)[:3]:
+            aut.remove_transition(p, 'epsilon' if a is None else a, q); cur = S.mk(cur[0], cur[1], cur[2], cur[3], set(cur[4]) - {(p, a, q)})
+            if not requery(f'after remove_transition({p!r}, {a!r}, {q!r})'): return fails
+    except Exception as ex:
+        fails.append(fail('C01.after-mutation:exception', repr(ex)))
+    return fails
+
+
 # ----------------------------------------------------------------------------------------------- pyvc cross-checks
 def fa_structural(R):
     """executable versions of the structural contracts proved by pyvc (CPython cross-check)"""
@@ -265,6 +294,17 @@ def c03_binary(R1, R2, n=3):
                set(T1[4]) | set(T2[4]) | {(f, None, s) for f in T1[3] for s in T2[2]})
     cmp('concatenate', lambda: A.concatenate(B), lambda w: S.accepts(cat, w), exact=cat)
     if S.extract(A) != bA or S.extract(B) != bB: fails.append(fail('C19.operand-unchanged', 'a binary operation changed an operand'))
+    # the operands are mutable: after a public mutation the operations must follow the new languages
+    if R1[4] and not fails and R2 is not R1:
+        p, a, q = sorted(R1[4], key=repr)[0]
+        A.remove_transition(p, 'epsilon' if a is None else a, q); R1b = S.mk(R1[0], R1[1], R1[2], R1[3], set(R1[4]) - {(p, a, q)})
+        for name, thunk, pred in (('get_intersection.after-mutation', lambda: A.get_intersection(B), lambda w: S.accepts(R1b, w) and S.accepts(R2, w)),
+                                  ('get_difference.after-mutation', lambda: B.get_difference(A), lambda w: S.accepts(R2, w) and not S.accepts(R1b, w))):
+            ok, r = guarded(f'C03.{name}', thunk, fails)
+            if ok:
+                Rr = S.extract(r)
+                for w in W:
+                    if S.accepts(Rr, w) != pred(w): fails.append(fail(f'C03.{name}', f'after remove_transition({p!r}, {a!r}, {q!r}): wrong on {w}')); break
     return fails
 
 
